@@ -675,4 +675,325 @@ theorem phase2_spec {a b : List Int} {a0 an : Int} {c : List Int} {ps : List Sli
     rw [hrun, List.append_assoc]
     rfl
 
+/-! ### from the regrouping to the validator -/
+
+/-- doubled end points of the final pieces: `2·c[m]`, `+1` at the (inclusive) right end `m = k` -/
+def fin (c : List Int) (k m : Nat) : Int := 2 * c.getD m 0 + (if m = k then 1 else 0)
+
+theorem fin_of {c : List Int} {k m : Nat} {x : Int} (h : c[m]? = some x) :
+    fin c k m = 2 * x + (if m = k then 1 else 0) := by
+  simp [fin, List.getD_eq_getElem?_getD, h]
+
+/-- the pieces after `d[(out1, k-1)] = … + (True,)` -/
+def lastIncl (ps : List Slice) : List Slice :=
+  match ps.getLast? with
+  | none => ps
+  | some p => ps.dropLast ++ [{ p with incl := true }]
+
+theorem setLastIncl_ok {ps : List Slice} (h : 1 ≤ ps.length) : setLastIncl ps = .ok (lastIncl ps) := by
+  unfold setLastIncl lastIncl
+  obtain ⟨p, hp⟩ := getLast?_of_length ps h
+  simp [hp]
+
+theorem lastIncl_length (ps : List Slice) : (lastIncl ps).length = ps.length := by
+  unfold lastIncl
+  cases h : ps.getLast? with
+  | none => rfl
+  | some p =>
+    have : ps ≠ [] := by intro hn; subst hn; simp at h
+    have : 1 ≤ ps.length := by
+      cases ps with
+      | nil => contradiction
+      | cons _ _ => simp
+    simp; omega
+
+theorem lastIncl_get (ps : List Slice) (m : Nat) (p : Slice) (hp : ps[m]? = some p) :
+    (lastIncl ps)[m]? = some (if m + 1 = ps.length then { p with incl := true } else p) := by
+  have hm : m < ps.length := (List.getElem?_eq_some_iff.mp hp).1
+  unfold lastIncl
+  obtain ⟨q, hq⟩ := getLast?_of_length ps (by omega)
+  simp only [hq]
+  by_cases hlast : m + 1 = ps.length
+  · simp only [hlast, if_true]
+    rw [List.getElem?_append_right (by simp; omega)]
+    rw [List.getLast?_eq_getElem?] at hq
+    have : ps.length - 1 = m := by omega
+    rw [this, hp] at hq
+    cases hq
+    have h0 : m - ps.dropLast.length = 0 := by simp; omega
+    rw [h0]
+    rfl
+  · simp only [hlast, if_false]
+    rw [List.getElem?_append_left (by simp; omega), List.getElem?_dropLast]
+    have : m < ps.length - 1 := by omega
+    simp [this, hp]
+
+theorem eff_piece {a b : List Int} {a0 an : Int} {c : List Int} {ps : List Slice} (hf : CFacts a b a0 an c ps)
+    (ha : isStrictSorted a = true) (han : a.getLast? = some an)
+    (m : Nat) (q : Slice) (hq : (lastIncl ps)[m]? = some q) :
+    effIv a q = some (fin c ps.length m, fin c ps.length (m+1)) ∧ fin c ps.length m < fin c ps.length (m+1) := by
+  have hm : m < ps.length := by
+    have := (List.getElem?_eq_some_iff.mp hq).1
+    rw [lastIncl_length] at this
+    exact this
+  have hp : ps[m]? = some ps[m] := List.getElem?_eq_getElem hm
+  rw [lastIncl_get ps m _ hp] at hq
+  obtain ⟨lo, hi, h1, h2, h3, h4, h5, h6, h7, h8⟩ := hf.pieces m ps[m] hp
+  rw [fin_of h3, fin_of h4]
+  rw [List.getLast?_eq_getElem?] at han
+  by_cases hlast : m + 1 = ps.length
+  · simp only [hlast, if_true, Option.some.injEq] at hq
+    subst hq
+    have hmk : ¬ m = ps.length := by omega
+    -- p.hi = c[k] = an, hence the slice comes from the last input partition
+    have hhi_an : (ps[m]).hi = an := by
+      have := hf.ck
+      rw [← hlast, h4] at this
+      cases this; rfl
+    have hi1 : ps[m].i + 1 < a.length := (List.getElem?_eq_some_iff.mp h2).1
+    have hhile : hi ≤ an := strict_le ha (by omega) h2 han
+    have hlasti : ps[m].i + 2 = a.length := by
+      by_cases hc : ps[m].i + 2 = a.length
+      · exact hc
+      · exfalso
+        have := strict_lt ha (show ps[m].i + 1 < a.length - 1 by omega) h2 han
+        omega
+    refine ⟨?_, by simp only [hmk, hlast, if_true, if_false]; omega⟩
+    unfold effIv
+    simp only [h1, h2, hlasti, if_true, hmk, hlast, if_false, Option.some.injEq, Prod.mk.injEq]
+    constructor <;> omega
+  · simp only [hlast, if_false, Option.some.injEq] at hq
+    subst hq
+    have hmk : ¬ m = ps.length := by omega
+    have hmk1 : ¬ m + 1 = ps.length := hlast
+    refine ⟨?_, by simp only [hmk, hmk1, if_false]; omega⟩
+    unfold effIv
+    simp only [h1, h2, h8, Bool.false_eq_true, if_false, hmk, hmk1, Option.some.injEq, Prod.mk.injEq]
+    constructor
+    · omega
+    · split <;> omega
+
+theorem chain_indexed (a : List Int) : ∀ (qs : List Slice) (f : Nat → Int),
+    (∀ m q, qs[m]? = some q → effIv a q = some (f m, f (m+1)) ∧ f m < f (m+1)) →
+    chain a (f 0) qs = some (f qs.length) := by
+  intro qs
+  induction qs with
+  | nil => intro f _; rfl
+  | cons q t ih =>
+    intro f h
+    have ⟨he, hlt⟩ := h 0 q rfl
+    unfold chain
+    simp only [he, hlt, if_true]
+    have := ih (fun m => f (m+1)) (fun m q' hq' => h (m+1) q' (by simpa using hq'))
+    simpa using this
+
+theorem filterMap_range_getElem? {α} : ∀ (l : List α), (List.range l.length).filterMap (fun m => l[m]?) = l := by
+  intro l
+  induction l with
+  | nil => rfl
+  | cons x t ih =>
+    rw [List.length_cons, List.range_succ_eq_map, List.filterMap_cons]
+    simp only [List.getElem?_cons_zero, List.filterMap_map]
+    have : ((fun m => (x :: t)[m]?) ∘ Nat.succ) = (fun m => t[m]?) := by
+      funext m; simp
+    rw [this, ih]
+
+theorem flatten_map_filterMap {α β} (f : α → Option β) : ∀ (L : List (List α)),
+    (L.map (fun l => l.filterMap f)).flatten = L.flatten.filterMap f := by
+  intro L
+  induction L with
+  | nil => rfl
+  | cons l t ih => simp only [List.map_cons, List.flatten_cons, List.filterMap_append, ih]
+
+theorem groups_le {c : List Int} {k i : Nat} {rest : List Int} {outs : List (List Nat)}
+    (h : Groups c k i rest outs) : i ≤ k := by
+  induction h with
+  | nil => exact Nat.le_refl _
+  | cons i i' bj rest outs h1 h2 _ _ _ => omega
+
+theorem groups_len {c : List Int} {k i : Nat} {rest : List Int} {outs : List (List Nat)}
+    (h : Groups c k i rest outs) : outs.length = rest.length := by
+  induction h with
+  | nil => rfl
+  | cons i i' bj rest outs _ _ _ _ ih => simp [ih]
+
+theorem groups_flat {c : List Int} {k i : Nat} {rest : List Int} {outs : List (List Nat)}
+    (h : Groups c k i rest outs) : outs.flatten = List.range' i (k - i) := by
+  induction h with
+  | nil => simp
+  | cons i i' bj rest outs h1 h2 _ hg ih =>
+    rw [List.flatten_cons, ih]
+    have := @List.range'_append i (i' - i) (k - i') 1
+    rw [show i + 1 * (i' - i) = i' by omega, show i' - i + (k - i') = k - i by omega] at this
+    exact this
+
+theorem groups_mem {c : List Int} {k i : Nat} {rest : List Int} {outs : List (List Nat)}
+    (h : Groups c k i rest outs) : ∀ tmp ∈ outs, tmp.isEmpty = false ∧ ∀ m ∈ tmp, m < k := by
+  induction h with
+  | nil => intro tmp ht; cases ht
+  | cons i i' bj rest outs h1 h2 _ hg ih =>
+    intro tmp ht
+    cases ht with
+    | head =>
+      refine ⟨?_, ?_⟩
+      · have : i' - i = (i' - i - 1) + 1 := by omega
+        rw [this, List.range'_succ]; rfl
+      · intro m hm
+        have := List.mem_range'_1.mp hm
+        omega
+    | tail _ ht' => exact ih tmp ht'
+
+theorem strict_last_index {b : List Int} (hb : isStrictSorted b = true) {bn : Int} (hbn : b.getLast? = some bn)
+    {j : Nat} (hj : b[j]? = some bn) : j + 1 = b.length := by
+  rw [List.getLast?_eq_getElem?] at hbn
+  have hjl : j < b.length := (List.getElem?_eq_some_iff.mp hj).1
+  by_cases hc : j + 1 = b.length
+  · exact hc
+  · exfalso
+    have := strict_lt hb (show j < b.length - 1 by omega) hj hbn
+    omega
+
+theorem groups_bounds {a b : List Int} {a0 an : Int} {c : List Int} {ps : List Slice} (hf : CFacts a b a0 an c ps)
+    (hb : isStrictSorted b = true) (hbn : b.getLast? = some an) (qs : List Slice)
+    (heff : ∀ m q, qs[m]? = some q →
+      effIv a q = some (fin c ps.length m, fin c ps.length (m+1)) ∧ fin c ps.length m < fin c ps.length (m+1)) :
+    ∀ (i : Nat) (rest : List Int) (outs : List (List Nat)), Groups c ps.length i rest outs →
+      ∀ (j : Nat) (bprev : Int), b.drop j = bprev :: rest → c[i]? = some bprev →
+        boundsOK a b j (outs.map (fun tmp => tmp.filterMap (fun m => qs[m]?))) = true := by
+  intro i rest outs h
+  induction h with
+  | nil => intro j bprev _ _; rfl
+  | cons i i' bj rest outs h1 h2 hci' hg ih =>
+    intro j bprev hdrop hci
+    have hclen := hf.clen
+    have hbj0 : b[j]? = some bprev := by
+      have := @List.getElem?_drop Int b j 0
+      rw [hdrop] at this
+      simpa using this.symm
+    have hbj1 : b[j+1]? = some bj := by
+      have := @List.getElem?_drop Int b j 1
+      rw [hdrop] at this
+      simpa using this.symm
+    have hdrop' : b.drop (j+1) = bj :: rest := by
+      rw [← List.tail_drop, hdrop]; rfl
+    simp only [List.map_cons, boundsOK, hbj0, hbj1, Bool.and_eq_true]
+    refine ⟨?_, ih (j+1) bj hdrop' hci'⟩
+    unfold withinB
+    rw [List.all_eq_true]
+    intro q hq
+    obtain ⟨m, hm, hqm⟩ := List.mem_filterMap.mp hq
+    have ⟨hm1, hm2⟩ := List.mem_range'_1.mp hm
+    have hmi' : m < i' := by omega
+    have ⟨he, hlt⟩ := heff m q hqm
+    simp only [he]
+    have hcm : c[m]? = some c[m] := List.getElem?_eq_getElem (by omega)
+    have hcm1 : c[m+1]? = some c[m+1] := List.getElem?_eq_getElem (by omega)
+    have hlo : bprev ≤ c[m] := cfacts_le' hf hm1 (by omega) hci hcm
+    have hhi : c[m+1] ≤ bj := cfacts_le' hf (show m + 1 ≤ i' by omega) h2 hcm1 hci'
+    rw [fin_of hcm, fin_of hcm1] at hlt ⊢
+    have hmk : ¬ m = ps.length := by omega
+    simp only [hmk, if_false] at hlt ⊢
+    have hright : 2 * c[m+1] + (if m + 1 = ps.length then 1 else 0) ≤
+        2 * bj + (if j + 2 = b.length then 1 else 0) := by
+      by_cases hk : m + 1 = ps.length
+      · -- the last piece: i' = k, bj = an is the last new division
+        have hi'k : i' = ps.length := by omega
+        have hbjan : bj = an := by
+          have := hf.ck
+          rw [← hi'k, hci'] at this
+          cases this; rfl
+        have := strict_last_index hb hbn (by rw [hbjan] at hbj1; exact hbj1)
+        have hj2 : j + 2 = b.length := by omega
+        rw [if_pos hk, if_pos hj2]
+        omega
+      · rw [if_neg hk]
+        split <;> omega
+    simp only [Bool.or_eq_true, Bool.not_eq_true', decide_eq_false_iff_not, Bool.and_eq_true, decide_eq_true_eq]
+    exact Or.inr ⟨by omega, hright⟩
+
+theorem planOf_groups {c : List Int} {k i : Nat} {rest : List Int} {outs : List (List Nat)}
+    (hg : Groups c k i rest outs) (qs : List Slice) (a0 : Int) :
+    planOf ⟨qs, outs, a0⟩ = outs.map (fun tmp => tmp.filterMap (fun m => qs[m]?)) := by
+  unfold planOf
+  apply List.map_congr_left
+  intro tmp ht
+  have := (groups_mem hg tmp ht).1
+  simp [this]
+
+/-- Strictly increasing old and new divisions with equal end points: the planner succeeds and its plan
+    passes the validator. -/
+theorem planner_strict (a b : List Int) (force : Bool)
+    (ha : isStrictSorted a = true) (hb : isStrictSorted b = true)
+    (hla : 2 ≤ a.length) (hlb : 2 ≤ b.length)
+    (h0 : a.head? = b.head?) (hn : a.getLast? = b.getLast?) :
+    ∃ st, planner a b force = .ok st ∧ closedOK st = true ∧ planOK a b (planOf st) = true := by
+  obtain ⟨a0, ha0⟩ := head?_of_length a (by omega)
+  obtain ⟨an, han⟩ := getLast?_of_length a (by omega)
+  cases b with
+  | nil => simp at hlb
+  | cons b0 bt =>
+    have hb0 : b0 = a0 := by rw [ha0] at h0; simp at h0; exact h0.symm
+    subst hb0
+    have hbn : (b0 :: bt).getLast? = some an := by rw [← hn]; exact han
+    obtain ⟨bp, bn, hl2, hbn', _⟩ := last2_of_length (b0 :: bt) hlb
+    rw [hbn] at hbn'
+    cases hbn'
+    have hbpn : bp < an := last2_strict hb hl2
+    have ha0' : a[0]? = some b0 := by rw [← List.head?_eq_getElem?]; exact ha0
+    have han' : a[a.length - 1]? = some an := by rw [← List.getLast?_eq_getElem?]; exact han
+    have ha0an : b0 < an := strict_lt ha (show 0 < a.length - 1 by omega) ha0' han'
+    -- phase 1
+    obtain ⟨s1, hp1, hinv1, hexit⟩ := phase1_spec ha hb han hbn (a.length + (b0 :: bt).length + 1) ⟨1, 1, b0, [b0], []⟩
+      (inv1_init ha hb hla hlb ha0' rfl han) (by simp only [List.length_cons]; omega)
+    have ⟨hlow, hf⟩ := cfacts_of_inv1 hb han hbn hinv1 hexit
+    have hk := cfacts_kpos hf ha0an
+    -- phase 2
+    obtain ⟨outs, hp2, hg⟩ := phase2_spec hf bp (b0 :: bt).length bt 1 0 [] b0 (by omega) hf.c0 hb
+      (fun x hx => by
+        obtain ⟨j, hj, hjx⟩ := List.mem_iff_getElem.mp hx
+        exact hf.b_in (j+1) x (by rw [List.getElem?_cons_succ, List.getElem?_eq_getElem hj, hjx]))
+      hbn
+    simp only [List.nil_append] at hp2
+    have hqlen := lastIncl_length s1.pieces
+    refine ⟨⟨lastIncl s1.pieces, outs, b0⟩, ?_, ?_, ?_⟩
+    · -- the planner computes exactly this state
+      have hclast : s1.c.getLast? = some an := by
+        rw [List.getLast?_eq_getElem?, hinv1.clen, Nat.add_sub_cancel, hinv1.clast, hlow]
+      have hsl : isSingleLastDiv (s1.c ++ [an]) = true := by
+        rw [isSingleLastDiv_snoc, hclast]; simp
+      have hb2 : ¬ (b0 :: bt).length < 2 := by omega
+      have ha2 : ¬ a.length < 2 := by omega
+      have hgf : guardFails force b0 an b0 an = false := by
+        unfold guardFails; cases force <;> simp
+      have hcond : (decide (an < an) || an == bp) = false := by
+        have : ¬ an = bp := by omega
+        simp [this]
+      unfold planner
+      simp only [hb2, ha2, if_false, ha0, han, List.head?_cons, hl2, hgf, Bool.false_eq_true, hp1, hcond,
+        isSingleLastDiv_strict ha, setLastIncl_ok hk, hsl, hqlen, List.drop_succ_cons, List.drop_zero, hp2]
+    · -- closed
+      unfold closedOK
+      simp only [List.all_eq_true, decide_eq_true_eq]
+      intro tmp ht m hm
+      rw [hqlen]
+      exact (groups_mem hg tmp ht).2 m hm
+    · -- the validator accepts
+      have heff := fun m q hq => eff_piece hf ha han m q hq
+      have hplan := planOf_groups hg (lastIncl s1.pieces) b0
+      have hflat : (planOf ⟨lastIncl s1.pieces, outs, b0⟩).flatten = lastIncl s1.pieces := by
+        rw [hplan, flatten_map_filterMap, groups_flat hg, Nat.sub_zero, ← List.range_eq_range', ← hqlen]
+        exact filterMap_range_getElem? _
+      have hchain : chain a (2 * b0) (lastIncl s1.pieces) = some (2 * an + 1) := by
+        have := chain_indexed a (lastIncl s1.pieces) (fin (s1.c ++ [an]) s1.pieces.length) heff
+        rw [fin_of hf.c0, hqlen, fin_of hf.ck] at this
+        have hk0 : ¬ 0 = s1.pieces.length := by omega
+        simpa [hk0] using this
+      have hbounds := groups_bounds hf hb hbn (lastIncl s1.pieces) heff 0 bt outs hg 0 b0 rfl hf.c0
+      unfold planOK
+      simp only [Bool.and_eq_true, decide_eq_true_eq]
+      refine ⟨⟨⟨strict_isSorted _ hb, ?_⟩, ?_⟩, ?_⟩
+      · rw [hplan, List.length_map, groups_len hg]; rfl
+      · simp only [ha0, han, hflat, hchain, beq_self_eq_true]
+      · rw [hplan]; exact hbounds
+
 end Dx.Repartition
